@@ -305,6 +305,9 @@ def audit_queries(ctx, dn, G, m, tag="", ts=None, full=True):
         ctx.expect(tag + "nodes(t)", Counter(raw), Counter(exp_nodes), detail)
         poison(raw)
         ctx.expect(tag + "dn.nodes(G,t)", Counter(dn.nodes(G, t)), Counter(exp_nodes), detail)
+        # the _iter form, data left at its default (False): the nodes themselves
+        ctx.expect(tag + "nodes_iter(t)", Counter(list(G.nodes_iter(t) if t is not None else G.nodes_iter())),
+                   Counter(exp_nodes), detail)
         obs = G.nodes(t, data=True) if t is not None else G.nodes(data=True)
         obs = list(obs)
         ctx.expect(tag + "nodes(t,data=True)", (len(obs), dict(obs)),
